@@ -39,11 +39,11 @@ class C06(Config):
     ]
     assumptions = [
         "the three pools are updated inside one database transaction (an error restores the pre-state)",
-        "anchor-retention policy of the SQLite wallet = union(NU6.3 activation height, configured interval) (no in-flight migration)",
+        "the policy of a real-wallet CPut case is GROUND TRUTH built by the harness from the network's NU6.3 activation height and the configured interval (histories with activation at the birthday, strictly inside the first batch and inside a later batch; no in-flight migration), not the policy the code derived",
         "debug-profile integer semantics (overflow panics)",
     ]
     partial_clauses = [
-        "root_at_checkpoint_id == true root and witness validity are evaluated on the implementation (observed booleans); "
+        "root_at_checkpoint_id == true root and witness validity (path of every mined unspent note applied to THAT NOTE'S OWN commitment, and its stored position == the commitment's position in the current chain; re-mined transactions at shifted positions included) are evaluated on the implementation (observed booleans); "
         "they rest on the shardtree crate and the SQLite ShardStore, which are not modelled",
         "put_*_subtree_roots is modelled as the identity on the ledger; its effect on the cap is only observed through the root/witness clauses (histories start from birthday frontiers just below a shard end)",
         "rewind_to_chain_state: only the tree part is modelled (birthday resets and the scan queue are not)",
